@@ -11,6 +11,7 @@ from vfw.cells import Cell
 from aiuti import itertools as ai
 
 LAST_INFO = None
+RAW = None
 
 SRC_KINDS = ('list', 'iterator', 'iterable')
 COND_KINDS = ('bools', 'ints', 'callable', 'iterator')
@@ -123,6 +124,8 @@ def scen_split(src, cond, order, abandon, src_kind, cond_kind):
             devs.append('predicate-not-called-for-every-element')
         elif calls != src[:len(calls)]:
             devs.append('predicate-called-with-wrong-argument')
+    global RAW
+    RAW = {'got_true': got[True], 'got_false': got[False]}
     if not vfw.prelude.tracing():
         LAST_INFO = {'src': list(src), 'cond': list(cond), 'order': list(order), 'abandon': abandon,
                  'got_true': got[True], 'got_false': got[False], 'expected_true': exp[True],
@@ -166,7 +169,7 @@ def twin_split(src, cond, order):
     devs = scen_split(src, cond, order, 0, 'iterator', 'callable')
     if devs:
         return []
-    info = LAST_INFO
+    info = RAW
     interesting = (len(info['got_true']) >= 1 and len(info['got_false']) >= 1
                    and any(order) and not all(order))
     return ['reached'] if interesting else []
